@@ -840,6 +840,17 @@ Fixpoint jumps_ok (inloop : bool) (s : stmt) : bool :=
   | _ => true
   end.
 
+(* semanal "Cannot resolve name (possible cyclic definition)": the first binding of a name reads the name *)
+Fixpoint selfref_ok (s : stmt) : bool :=
+  match s with
+  | SDef x e => negb (mem_id x (expr_vars e))
+  | SIf _ a b | SSeq a b | SFinally a b => selfref_ok a && selfref_ok b
+  | SWhile _ a b | SFor _ _ _ a b => selfref_ok a && selfref_ok b
+  | STry a _ _ b c => selfref_ok a && selfref_ok b && selfref_ok c
+  | SLab _ a => selfref_ok a
+  | _ => true
+  end.
+
 Fixpoint distinct (l : list id) : bool :=
   match l with [] => true | x :: r => negb (mem_id x r) && distinct r end.
 
@@ -852,7 +863,7 @@ Definition check_fun (P : prog) (strict : bool) (self : option id) (fd : fdecl) 
      else match redecl_ok P (map fst ps) (f_body fd) with
           | None => Rej None
           | Some bound =>
-              if negb (forallb (fun x => mem_id x bound) (stmt_reads (f_body fd))) then Rej None else
+              if negb (forallb (fun x => mem_id x bound) (stmt_reads (f_body fd)) && selfref_ok (f_body fd)) then Rej None else
               if negb (ubd_ok (map fst ps) (f_body fd)) then Unsup 11 else
               if negb (jumps_ok false (f_body fd)) then Rej None else      (* break / continue outside a loop *)
               bind (check_stmt P strict (f_ret fd) {| decl := ps; cur := Some [] |} (f_body fd)) (fun r' =>
